@@ -44,3 +44,10 @@ lemma("adjacent_monotone",
       requires=["0 <= a", "a <= b", "b < len(f)", "forall(0, len(f), lambda k: implies(k + 1 < len(f), f[k] <= f[k + 1]))"],
       ensures=[("monotone", "f[a] <= f[b]")],
       induct="b", props=("C14",))
+
+
+lemma("psum_zero",
+      vars=dict(v=VecT(Real), m=Int),
+      requires=["0 <= m", "m <= len(v)", "forall(0, len(v), lambda k: v[k] == 0)"],
+      ensures=[("zero", "psum(v, m) == 0")],
+      induct="m", props=("C04",))
